@@ -34,6 +34,7 @@ type ConcCfg struct {
 	BigBias  bool // many truncations/removals of the big file (frees in flight)
 	FileFocus bool // all clients hammer one file (SETATTR/WRITE/GETATTR/READ)
 	HalfFreed bool // start from a server that was stopped in the middle of a big free: the first allocations are handed a half-freed inode
+	AbortHammer bool // C14: many failing (aborting) requests next to lookups/creates on the same directory; dead handles next to allocations
 	Focus    bool // namespace races on two names in one directory whose children have smaller numbers
 	Procs    int
 }
@@ -154,6 +155,7 @@ func concModel(init *Model) porcupine.Model {
 }
 
 type world struct {
+	dead   [][]byte
 	dirs   [][]byte
 	files  [][]byte
 	big    []byte
@@ -174,6 +176,24 @@ func genConcOp(r *Rng, w *world, mine *[][]byte, uid *uint64, cfg ConcCfg) *Op {
 			return (*mine)[r.Intn(len(*mine))]
 		}
 		return w.files[r.Intn(len(w.files))]
+	}
+	if cfg.AbortHammer {
+		d := w.dirs[len(w.dirs)-1]
+		switch x := r.Intn(100); {
+		case x < 30: // fails after the name cache was already edited (abort with changes)
+			return &Op{K: OpRename, H: d, Name: w.names[r.Intn(2)], H2: d, Name2: longName(200, 'x')}
+		case x < 50:
+			return &Op{K: OpLookup, H: d, Name: w.names[r.Intn(2)]}
+		case x < 60:
+			return &Op{K: OpCreate, H: d, Name: w.names[r.Intn(2)]}
+		case x < 65:
+			return &Op{K: OpRemove, H: d, Name: w.names[r.Intn(2)]}
+		case x < 85 && len(w.dead) > 0: // a dead handle whose number is being handed out again
+			return &Op{K: OpGetattr, H: w.dead[r.Intn(len(w.dead))]}
+		default:
+			*uid++
+			return &Op{K: OpCreate, H: w.dirs[0], Name: fmt.Sprintf("n%d", *uid)}
+		}
 	}
 	if cfg.FileFocus {
 		f := w.files[0]
@@ -400,7 +420,19 @@ func runOneHistory(cfg ConcCfg, seed uint64, cas, h int, res *ConcRes) {
 			s.exec(&Op{K: OpWrite, H: w.big, Off: uint64(k) * 60 * BlockSize, Count: 60 * BlockSize, DataLen: 60 * BlockSize, Uid: uid, Stable: 0})
 		}
 	}
-	if cfg.HalfFreed {
+	if cfg.AbortHammer {
+		// freed inode numbers that a restart makes the allocator hand out again
+		for i := 0; i < 60; i++ {
+			if fh := mk(OpCreate, srv.Root, fmt.Sprintf("old%d", i)); fh != nil {
+				w.dead = append(w.dead, fh)
+			}
+		}
+		for i := 0; i < 60; i++ {
+			s.exec(&Op{K: OpRemove, H: srv.Root, Name: fmt.Sprintf("old%d", i)})
+		}
+		s.restart()
+		srv = s.srv
+	} else if cfg.HalfFreed {
 		s.exec(&Op{K: OpRemove, H: srv.Root, Name: "doomed"})
 		// Crash(): the shrinker stops after its current transaction, then a
 		// clean shutdown; the next server finds a half-freed inode
